@@ -238,6 +238,13 @@ func checkWildFacts(c WildCase) (*Violation, wildFacts) {
 	if !ok {
 		return violf("%s: the tree walk selects %v but Query returned %v", at, w, g), f
 	}
+	// existence mode must agree with the walk: Exists is true exactly when a node is selected
+	if ex := RunExists(context.Background(), p, doc); ex.Panic != "" || ex.Class != EOK || ex.Bool != (len(want) > 0) {
+		return violf("%s: the walk selects %d node(s) but Exists = %v, %v%s", at, len(want), ex.Bool, ex.Err, ex.Panic), f
+	}
+	if fi := RunFirst(context.Background(), p, doc); fi.Panic != "" || fi.Class != EOK || (len(want) == 0 && fi.Item != nil) || (len(want) > 0 && !contains(w, Render(fi.Item, false))) {
+		return violf("%s: First returned %s, %v; the walk selects %v", at, Render(fi.Item, false), fi.Err, w), f
+	}
 	var all []wnode
 	preorder(doc, 0, &all)
 	depth := 0
